@@ -75,6 +75,20 @@ fn ref_numeric(v: i128, r: &R) -> Option<(&'static str, i32)> {
     None
 }
 
+/// Reference for integer carriers: the numeric facets, then membership in the enumeration — in the value space, as XSD
+/// compares the values of an integer type: 7 is a member of {"007"} and of {"+7"}, no integer is a member of {"a"} or of {}.
+fn ref_int(v: i128, r: &R) -> Option<(&'static str, i32)> {
+    if let Some(hit) = ref_numeric(v, r) {
+        return Some(hit);
+    }
+    if let Some(e) = &r.enumeration {
+        if !e.iter().any(|m| xsd_integer(m) == Some(v)) {
+            return Some(("enumeration", 0));
+        }
+    }
+    None
+}
+
 /// XSD integer lexical form `[+-]?[0-9]+` → value (i128 is ample for the domain).
 fn xsd_integer(s: &str) -> Option<i128> {
     let t = s.strip_prefix('+').or_else(|| s.strip_prefix('-')).unwrap_or(s);
@@ -196,7 +210,7 @@ fn bound_of(r: &R, f: &str) -> Option<i32> {
 }
 
 fn int_case<T: CheckRestrictions + Copy + std::fmt::Display>(rec: &mut Rec, carrier: &str, wrap: &str, v: T, vi: i128, r: Option<&R>, actual: Result<(), String>) {
-    let expected = r.and_then(|r| ref_numeric(vi, r));
+    let expected = r.and_then(|r| ref_int(vi, r));
     let expected_ok = expected.is_none();
     let _ = v;
     rec.note(
@@ -205,6 +219,7 @@ fn int_case<T: CheckRestrictions + Copy + std::fmt::Display>(rec: &mut Rec, carr
         &actual,
         || {
             let (facet, rel) = match (&expected, &actual) {
+                (Some((f, _)), _) if *f == "enumeration" => ("enumeration".to_string(), "not-member".to_string()),
                 (Some((f, b)), _) => ((*f).to_string(), relation(vi, *b)),
                 (None, Err(m)) => {
                     let f = facet_from_msg(m);
@@ -267,7 +282,7 @@ macro_rules! int_carrier {
                 // Vec: [0-ish valid?, v] — expected = all elements satisfy
                 let w0 = vals[vals.len() / 2] as $t;
                 let vecv = vec![w0, v];
-                let exp_ok = ref_numeric(vals[vals.len() / 2], r).is_none() && ref_numeric(*vi, r).is_none();
+                let exp_ok = ref_int(vals[vals.len() / 2], r).is_none() && ref_int(*vi, r).is_none();
                 let a = call(&vecv, Some(r));
                 $rec.note(&format!("Vec:{}", $name), exp_ok, &a,
                     || format!("C06|vec|carrier={}|expected={}|actual={}", $name, if exp_ok {"accept"} else {"reject"}, if a.is_ok() {"accept"} else {"reject"}),
@@ -300,14 +315,33 @@ pub fn run(wide: bool) {
     }
     let n_rsets_numeric = rsets.len();
 
-    int_carrier!(&mut rec, i8, "i8", bounds, rsets);
-    int_carrier!(&mut rec, u8, "u8", bounds, rsets);
-    int_carrier!(&mut rec, i16, "i16", bounds, rsets);
-    int_carrier!(&mut rec, u16, "u16", bounds, rsets);
-    int_carrier!(&mut rec, i32, "i32", bounds, rsets);
-    int_carrier!(&mut rec, u32, "u32", bounds, rsets);
-    int_carrier!(&mut rec, i64, "i64", bounds, rsets);
-    int_carrier!(&mut rec, u64, "u64", bounds, rsets);
+    // the same sets, and a sample of them together with an enumeration (integer types can be enumerated, too: status codes)
+    let int_enums: Vec<Vec<String>> = vec![
+        vec!["7".to_string()],
+        vec!["0".to_string(), "-1".to_string(), "2147483647".to_string(), "-2147483648".to_string()],
+        vec!["007".to_string(), "+1".to_string(), "-0".to_string()],
+        vec!["a".to_string()],
+        vec![],
+        vec!["2147483648".to_string(), "18446744073709551615".to_string(), "-9223372036854775808".to_string(), "1".to_string()],
+    ];
+    let mut irsets: Vec<R> = rsets.clone();
+    for (i, r) in rsets.iter().enumerate() {
+        if i == 0 || i % 53 == 0 {
+            for e in &int_enums {
+                let mut r = r.clone();
+                r.enumeration = Some(e.clone());
+                irsets.push(r);
+            }
+        }
+    }
+    int_carrier!(&mut rec, i8, "i8", bounds, irsets);
+    int_carrier!(&mut rec, u8, "u8", bounds, irsets);
+    int_carrier!(&mut rec, i16, "i16", bounds, irsets);
+    int_carrier!(&mut rec, u16, "u16", bounds, irsets);
+    int_carrier!(&mut rec, i32, "i32", bounds, irsets);
+    int_carrier!(&mut rec, u32, "u32", bounds, irsets);
+    int_carrier!(&mut rec, i64, "i64", bounds, irsets);
+    int_carrier!(&mut rec, u64, "u64", bounds, irsets);
 
     // floats and booleans are never rejected, whatever the set
     let enum_sets: Vec<Option<Vec<String>>> = vec![
